@@ -22,7 +22,7 @@ RULE = ('scalar conversions: log-uniform arguments; fixed-sampling routes: rando
         'methods mdft and czt, both directions; FFT route: Q in {1,2,3,1.5,2.37}; spot predicates: flat pupils with '
         'k in {0,+-1,+-2.5,3,-1.75} waves of tilt on either axis. A case is non-trivial unless the array is 1x1 or '
         'the tilt and shift are all zero; distinct = distinct (item, input) tuples')
-ASSUMPTIONS = ['cases whose shift is handed over as a float32 ndarray are compared at 1e-5 (NumPy divides a float32 array by '
+ASSUMPTIONS = ['cases whose shift is handed over as a float32 ndarray are compared at 2e-4 (NumPy divides a float32 array by '
                'output_dx in float32: the precision of the argument the user chose), all others at 1e-9',
                'numpy matmul / exp / scipy.fft are trusted primitives (the model plugs Float.cos/sin/sqrt into the same sums)',
                'comparison tolerance 1e-9 relative to the largest modulus of the reference (fields are O(1), sizes <= 24x24: '
